@@ -155,6 +155,7 @@ pub fn entrait_for_mod(attr: &EntraitFnAttr, input_mod: InputMod) -> syn::Result
         vis,
         mod_token,
         ident: mod_ident,
+        inner_attrs,
         items,
         ..
     } = input_mod;
@@ -165,6 +166,7 @@ pub fn entrait_for_mod(attr: &EntraitFnAttr, input_mod: InputMod) -> syn::Result
     Ok(quote! {
         #(#attrs)*
         #vis #mod_token #mod_ident {
+            #(#inner_attrs)*
             #(#items)*
 
             #trait_def
